@@ -9,6 +9,46 @@ import traceback
 from .core import Check, MachineryError
 
 
+def _descendants(pid):
+    kids = {}
+    for d in os.listdir('/proc'):
+        if d.isdigit():
+            try:
+                with open(f'/proc/{d}/stat') as f:
+                    ppid = int(f.read().rsplit(')', 1)[1].split()[1])
+            except (OSError, ValueError, IndexError):
+                continue
+            kids.setdefault(ppid, []).append(int(d))
+    out, todo = [], [pid]
+    while todo:
+        for k in kids.get(todo.pop(), []):
+            out.append(k)
+            todo.append(k)
+    return out
+
+
+def _watchdog(prop, tier):
+    """a check always ends with a verdict or a machinery failure (DESIGN 9.5 lesson 7): if a call into frappy (or
+    TLC) does not return and no harness-level guard turns that into a verdict, the whole check is ended with
+    exit 2 after a wall-clock budget far above its normal run time"""
+    import signal
+    import threading
+    limit = float(os.environ.get('VERIF_WALL_LIMIT', 2400 if tier == 'quick' else 7200))
+
+    def expire():
+        print(f'MACHINERY-FAILURE {prop}: the check did not finish within {limit:.0f} s (a call into frappy or TLC '
+              f'does not return); no verdict', flush=True)
+        for k in _descendants(os.getpid()):
+            try:
+                os.kill(k, signal.SIGKILL)
+            except OSError:
+                pass
+        os._exit(2)
+    th = threading.Timer(limit, expire)
+    th.daemon = True
+    th.start()
+
+
 def main():
     import faulthandler
     import signal
@@ -29,6 +69,7 @@ def main():
         print(f'no check for {a.prop}')
         sys.exit(2)
     chk = Check(a.prop.upper(), a.tier, a.seed, keep_replays=bool(a.replay))
+    _watchdog(a.prop.upper(), a.tier)
     try:
         if a.replay:
             with open(a.replay) as f:
